@@ -160,7 +160,9 @@ def eval_history(state, arg):
                         if freeze(v) != fresh[op[1]]:
                             res["fails"].append(["pure_function", f"{attr_name(op[1])} differs from a fresh object's value"
                                                  + (" (after close)" if closed else "")])
-                        if op[1][0] != "pars":
+                        # the *_pars values share their lists with the collector by design;
+                        # only string-level values are promised to be fresh
+                        if op[1][0] not in ("pars", "docpars"):
                             mutate(v, rng)
                         outcomes.append([0])
                     elif op[0] == "save_images":
